@@ -24,7 +24,12 @@ fn constant_grid(lat: (i32, i32), lon: (i32, i32), vals: &[f64]) -> String {
     }
     s
 }
+static SETUP: std::sync::Once = std::sync::Once::new();
 fn setup() {
+    // the tests of this binary run in parallel: write the files exactly once
+    SETUP.call_once(setup_files);
+}
+fn setup_files() {
     // datum shifts in arcsec (lat, lon): A = (36, 72), B = (3.6, 7.2); A inside B
     write("datum", "verif_a.datum", constant_grid((55, 57), (10, 12), &[36.0, 72.0]));
     write("datum", "verif_b.datum", constant_grid((54, 58), (8, 16), &[3.6, 7.2]));
